@@ -91,6 +91,47 @@ func raceSignature(report string) string {
 func (raceEngine) Generate(rng *rand.Rand, prop string, thorough bool) *Plan {
 	p := chaosEngine{}.Generate(rng, prop, thorough)
 	p.Engine = "race"
+	if rng.Intn(4) == 0 {
+		// a cold start: the data was written by an earlier session (closed cleanly); this session opens the
+		// directory and 4-8 goroutines start reading at the same instant, so that the FIRST access of this
+		// session to the index files and to every old segment is made by several shared-lock readers at once
+		cfg := p.Cfg
+		cfg.NKeys = 20 + rng.Intn(60)
+		cfg.Family = []int{int(KFTiny), int(KFMixed)}[rng.Intn(2)]
+		if cfg.Family == int(KFTiny) && cfg.NKeys > 70 {
+			cfg.NKeys = 70
+		}
+		cfg.MaxSeg = []uint32{1024, 2048, 4096}[rng.Intn(3)]
+		cfg.RecoverFirst = true
+		keys := GenKeys(rng, KeyFamily(cfg.Family), cfg.NKeys, cfg.HashSeed)
+		cfg.NKeys = len(keys)
+		p.Cfg = cfg
+		p.SetKeys(keys)
+		id := 0
+		var pre []Op
+		for _, k := range rng.Perm(cfg.NKeys) {
+			id++
+			pre = append(pre, Op{K: "put", Key: k, ID: id, Size: []int{16, 60, 200, 4000}[rng.Intn(4)]})
+		}
+		p.Epochs = [][]Op{pre}
+		all := make([]int, cfg.NKeys)
+		for i := range all {
+			all[i] = i
+		}
+		p.Tasks = nil
+		for r := 4 + rng.Intn(5); r > 0; r-- {
+			w := map[string]int{"get": 50, "has": 15, "geta": 15, "items": 2, "count": 2}
+			p.Tasks = append(p.Tasks, genClient(rng, cfg, 40+rng.Intn(60), w, all, &id, concSizes))
+		}
+		if rng.Intn(2) == 0 {
+			p.Tasks[0] = append(p.Tasks[0], Op{K: "close"})
+		}
+		// the memory-mapped default twice as often: it is the one with per-handle state set up at open time
+		p.Cfg.RealFS = []string{"mem", "os", "osmmap", "osmmap"}[rng.Intn(4)]
+		p.Cfg.Alias, p.Cfg.Poison, p.Cfg.ShortReads, p.Cfg.PermuteDir, p.Cfg.FSYields = false, false, false, false, false
+		p.Cfg.BgSyncMs, p.Cfg.BgCompactMs = 0, 0
+		return p
+	}
 	if rng.Intn(2) == 0 {
 		// a growing database: 60-200 keys put for the first time while other goroutines read, so that the
 		// index splits (level, split pointer, bucket count change) and the log rolls over under the readers
@@ -203,6 +244,18 @@ func (raceEngine) Execute(p *Plan) *RunResult {
 		case "del":
 			_ = db.Delete(keys[op.Key])
 		}
+	}
+	if p.Cfg.RecoverFirst {
+		// the preload was an earlier session: close it and start this one on files nobody has touched yet
+		if err := db.Close(); err != nil {
+			res.V = violf("close-failed", "Close of the earlier session on %s: %v", p.Cfg.RealFS, err)
+			return res
+		}
+		if db, err = pogreb.Open(dir, o); err != nil {
+			res.V = violf("open-failed", "Open after the earlier session on %s: %v", p.Cfg.RealFS, err)
+			return res
+		}
+		res.Probes["race_run_cold_start"]++
 	}
 	var mu sync.Mutex
 	var vio *Violation
